@@ -2,9 +2,9 @@ SPECIFICATION Spec
 CONSTANTS
   Names <- NamesAll
   NodeKind <- TreeKind
-  AltKinds <- AltAll
-  CbKinds <- CbAll
-  MaxCalls = 3
+  AltKinds <- AltGiven
+  CbKinds <- CbOnly
+  MaxCalls = 4
   CallbackOnce = TRUE
 VIEW ViewNoHist
 INVARIANT Denotation
